@@ -8,7 +8,7 @@
    run_crash .. k v s = the disk after the run is killed at its k-th file-system mutation (v: before it /
                    file created empty / file cut), run_full = after an uninterrupted run. *)
 From Coq Require Import List Bool Arith.
-From PAFC06 Require Import Model Proofs Proofs2 Proofs3 Witness.
+From PAFC06 Require Import Model Proofs Proofs2 Proofs3 Gen Naming Naming2 Witness.
 Import ListNotations.
 
 (* ---- complete once ---- *)
@@ -102,9 +102,63 @@ Theorem C06_extract_any_order : forall snap h s r,
   (forall r, fd s r = Absent) -> fd (exec (extract_ops snap h) s) r = snap r.
 Proof. exact exec_extract_ops_fd. Qed.
 
+(* ---- several fits in one output directory (names: Naming.v, suffixes translated from /repo into Gen.v) ----
+   path = components below the output directory; folder f = <path_prefix>/<unique_tag>/<name>[/<identifier>];
+   names p = [p; p.zip; p.zip.tmp];  legal p = p is not the output directory itself and its last component does not end
+   in ".zip" / ".tmp" (the guard is needed: C06_names_collide_unguarded_refuted in Witness.v).
+   Not expressed in the flat disk model (assumption): no fit's folder lies inside another fit's folder. *)
+(* the archive (and temporary archive) name determines the folder: nothing of the folder name is dropped *)
+Theorem C06_archive_name_injective : forall suf p q, p <> [] -> q <> [] -> add_suffix suf p = add_suffix suf q -> p = q.
+Proof. exact add_suffix_inj. Qed.
+
+(* folder, archive and temporary archive of one fit are three different names *)
+Theorem C06_names_own : forall p, legal p -> NoDup (names p).
+Proof. exact names_own. Qed.
+
+(* two different fits share none of their names: whatever the names look like (dots, one a prefix of the other, ...) *)
+Theorem C06_names_separate : forall p q, legal p -> legal q -> p <> q ->
+  forall x y, In x (names p) -> In y (names q) -> x <> y.
+Proof. exact names_separate. Qed.
+
+(* any interleaving of runs and crashes of any fits in one directory: each fit sees exactly its own history *)
+Theorem C06_neighbours_independent : forall cd c q, legal q -> forall runs dk,
+  (forall r, In r runs -> legal (g_fit r)) ->
+  read q (ghistory cd c runs dk) = thistory cd c (project q runs) (read q dk).
+Proof. exact neighbours_independent. Qed.
+
+(* a fit that has not run yet is never handed a neighbour's output *)
+Theorem C06_neighbours_fresh : forall cd c q runs, legal q ->
+  (forall r, In r runs -> legal (g_fit r)) -> (forall r, In r runs -> g_fit r <> q) ->
+  read q (ghistory cd c runs empty_disk) = empty_fs.
+Proof. exact neighbours_fresh. Qed.
+
+(* a stored result survives everything its own fit and the neighbours do afterwards (atomic archive write) *)
+Theorem C06_neighbours_durable : forall cd c g q runs dk, fx_zip cd = true -> legal q ->
+  (forall r, In r runs -> legal (g_fit r)) ->
+  stored c g (read q dk) -> stored c g (read q (ghistory cd c runs dk)).
+Proof. exact neighbours_durable. Qed.
+
+(* ... and is found again by its fit: no sampling, same generation (guard as in C06_complete_once_partial) *)
+Theorem C06_neighbours_complete_once_partial : forall cd c g q runs dk tag h, fx_zip cd = true -> legal q ->
+  (forall r, In r runs -> legal (g_fit r)) ->
+  stored c g (read q dk) ->
+  let s := read q (ghistory cd c runs dk) in
+  not_part (eff_dir s Dill) ->
+  plan_out cd c tag h s = inr (mkres g (expected_samples c g) false)
+  /\ plan_sampled cd c tag h s = false
+  /\ stored c g (run_full cd c tag h s).
+Proof. exact neighbours_complete_once. Qed.
+
 Print Assumptions C06_complete_once_partial.
 Print Assumptions C06_durable_crash_partial.
 Print Assumptions C06_durable_history_repaired.
 Print Assumptions C06_invariant_crash.
 Print Assumptions C06_resume_partial.
 Print Assumptions C06_resume_repaired.
+Print Assumptions C06_archive_name_injective.
+Print Assumptions C06_names_own.
+Print Assumptions C06_names_separate.
+Print Assumptions C06_neighbours_independent.
+Print Assumptions C06_neighbours_fresh.
+Print Assumptions C06_neighbours_durable.
+Print Assumptions C06_neighbours_complete_once_partial.
